@@ -46,6 +46,11 @@ CHECKS = {
    note="Bounded: all constructors over rich leaves at depth 1, over small leaves at depth 2 (thorough: depth 2 rich, binding-sensitive constructors at depth 3). No type parameters / instantiations / unions yet. Interface methods all have signature func(). Trusted: TLC, go/parser, go/types.",
    technique="TLA+ token grammar + parser (print/parse identity checked by TLC) + declare/write/re-check replay per term",
    design_ref="DESIGN.md section 5 C13"),
+ "C14": dict(level="model_checking",
+   text="Zero.tla states the two demands on a synthesised zero expression over GoTypes.tla's universe (accepted where a T is expected; static type exactly T in an inferred position), checks that every type has a form meeting both, and evaluates the form the implementation chooses (ImplForm) to predict where it must deviate (class UntypedZeroForm). For every type (61 incl. an imported struct with unexported fields, named arrays, composites of named types) the real builder is asked for the zero value through every user (ZeroLit, T(), ReturnErr padding, omitted optional argument), the package is written and type-checked by go/types, and the reported Elem.Type, acceptance and the inferred static type are compared.",
+   note="One universe, exhaustive over it (244 cases). Deviations the model predicts from the implementation's choice of form are one known root cause; any other deviation is a violation. Evaluation to the zero value is decided by form (0/false/\"\"/nil/T{}), not by executing code. Trusted: TLC, go/types.",
+   technique="TLA+ judgement over the type universe (TLC as evaluator, satisfiability invariant) + replay of every (type, user) through the real builder with go/types on the output",
+   design_ref="DESIGN.md section 5 C14"),
 }
 
 def sh(cmd):
